@@ -18,6 +18,7 @@ inductive LStmt where
   | checkIndex           -- `_check_index` … `raise ValueError`
   | checkIntIndex        -- `util.check_attr_type(index, int)`
   | checkBounds          -- `if not 0 <= index < len(data_frame.columns): raise OutOfBounds`
+  | checkSameFile        -- `if <obj>._h5group.group.file != self._h5group.group.file: raise ValueError`
   | requireLink          -- `if not self.has_link: raise RuntimeError`
   | convertTicks         -- `ticks = np.asarray(ticks, dtype=DataType.Double)` (a conversion of the argument)
   | checkAscending       -- `if np.any(np.diff(ticks) < 0): raise ValueError`
